@@ -235,7 +235,7 @@ pub fn run_batch(prop: &dyn Property, tier: Tier, seed: u64, n_runs: usize, know
                     let rs = run_seed_for(seed, prop.id(), i);
                     let mut acc = Acc::default();
                     let v = prop.run(rs, tier, &mut acc);
-                    if v.is_some() {
+                    if v.is_some() && std::env::var("VERIF_COLLECT").is_err() {
                         // later runs are not needed: the first violation in index order wins
                         stop_at.fetch_min(i, Ordering::SeqCst);
                     }
@@ -259,6 +259,16 @@ pub fn run_batch(prop: &dyn Property, tier: Tier, seed: u64, n_runs: usize, know
                 runs_done += 1;
                 acc.merge(a);
                 if let Some((viol, scn)) = v {
+                    if std::env::var("VERIF_COLLECT").is_ok() {
+                        // triage mode: list every distinct violation signature, keep going
+                        let key = format!("{} | {} | {}", viol.oracle, viol.class, viol.site);
+                        let e = acc.known_hits.entry(format!("COLLECTED {key}")).or_insert_with(|| viol.detail.clone());
+                        let _ = e;
+                        if first_violation.is_none() {
+                            first_violation = Some((i, run_seed_for(seed, prop.id(), i), viol, scn));
+                        }
+                        continue;
+                    }
                     first_violation = Some((i, run_seed_for(seed, prop.id(), i), viol, scn));
                     break;
                 }
